@@ -96,6 +96,12 @@ func envCase(c *Ctx, d *ref.Decl, spec string, node *ref.Node, argv []string, r 
 			c.Violation("C12", key, cs(), "accepted (it is accepted with the variables unset)", obs.Summary())
 			continue
 		}
+		if c.WantSample("env") && obs.Accepted && !base.Accepted && len(argv) >= 1 {
+			c.Sample("env", Case{"spec": spec, "argv": argv, "env": envText(env), "accepted_without_env": base.Accepted, "accepted_with_env": obs.Accepted, "bound": ref.BindTextOf(d, obs.Lists)})
+		}
+		if c.WantSample("env-written") && obs.Accepted && base.Accepted && len(argv) >= 2 {
+			c.Sample("env-written", Case{"spec": spec, "argv": argv, "env": envText(env), "bound_without_env": ref.BindTextOf(d, base.Lists), "bound_with_env": ref.BindTextOf(d, obs.Lists)})
+		}
 		// (2) values
 		if obs.Accepted && !hasEnd && !r.Malformed {
 			for i, o := range d.Opts {
@@ -158,9 +164,6 @@ func envCase(c *Ctx, d *ref.Decl, spec string, node *ref.Node, argv []string, r 
 		c.Count("ref_loose_rejects", 1)
 		if obs.Accepted {
 			c.Violation("C12", key, cs(), "rejected: no derivation exists even with every env-backed option optional", obs.Summary()+" bound "+ref.BindTextOf(d, obs.Lists))
-		}
-		if c.WantSample("env") && obs.Accepted && !base.Accepted {
-			c.Sample("env", Case{"spec": spec, "argv": argv, "env": envText(env), "accepted_without_env": base.Accepted, "accepted_with_env": obs.Accepted, "bound": ref.BindTextOf(d, obs.Lists)})
 		}
 	}
 }
